@@ -176,6 +176,29 @@ theorem detp4_lane_of_model (p : ℕ) [hpf : Fact p.Prime] (hodd : p % 2 = 1) (h
     (e0 p n) (colOf p n (startVec n 0 1)) seq k2 k3 k4 h2
   exact ⟨out, o1, fun h => (o3 h).2, o4⟩
 
+/-- The same with the code's own bound: `norm() · max(p, 65537) ≤ 2^63` (for the moduli of
+`select_crtprimes`, `p · norm < 2^63` is its `debug_assert!`; 65537 bounds the start vector). -/
+theorem detp4_lane_of_norm (p : ℕ) [hpf : Fact p.Prime] (hodd : p % 2 = 1) (hlt : p < 2 ^ 63)
+    (n : ℕ) (hn : 1 ≤ n) (m : Mat) (hm : m.length = n) (hcols : ∀ r ∈ m, ∀ je ∈ r, je.1 < n)
+    (hnorm : (norm m : Int) * ((max p 65537 : ℕ) : Int) ≤ 2 ^ 63) :
+    ∃ seq, krylov m p (2 * m.length + 1) (startVec m.length 0 1) [] = some seq ∧
+      seq.length = 2 * n ∧
+      (TwoTerms seq → ∃ out, bm p seq = some out ∧
+        (out.getD n 0 ≠ 0 → ∃ d, laneDet n p seq = some d ∧ d < p ∧
+          (d : ZMod p) = (matOf p n m).det) ∧
+        (out.getD n 0 = 0 → laneDet n p seq = some 0)) := by
+  have hmx : (65537 : Int) ≤ ((max p 65537 : ℕ) : Int) := by exact_mod_cast le_max_right p 65537
+  have hmp : (p : Int) ≤ ((max p 65537 : ℕ) : Int) := by exact_mod_cast le_max_left p 65537
+  have hn0 : (0 : Int) ≤ (norm m : Int) := Int.natCast_nonneg _
+  apply detp4_lane_of_model p hodd hlt n hn m hm hcols (((max p 65537 : ℕ) : Int) - 1)
+    (by omega) (by omega)
+  apply weights_of_norm m _ (by omega)
+  rw [I63_eq]
+  rcases Nat.eq_zero_or_pos (norm m) with h0 | h0
+  · rw [h0]; norm_num
+  · have : (1 : Int) ≤ (norm m : Int) := by exact_mod_cast h0
+    nlinarith
+
 /-! ### `detz`: CRT with termination on the first repeated value -/
 
 /-- **`detz` from its lanes (partial).** `detz` does NOT use the Hadamard/norm bound: it rebuilds
